@@ -24,12 +24,10 @@ import (
 	"os"
 	"path"
 	"path/filepath"
+	"strings"
 
 	"oras.land/oras-go/v2/errdef"
 )
-
-// blockSize is the size of each block in a tar archive.
-const blockSize int64 = 512
 
 // TarFS represents a file system (an fs.FS) based on a tar archive.
 type TarFS struct {
@@ -40,7 +38,13 @@ type TarFS struct {
 // entry represents an entry in a tar archive.
 type entry struct {
 	header *tar.Header
-	pos    int64
+	// pos is the offset of the entry's data in the archive.
+	pos int64
+	// index is the ordinal of the entry in the archive.
+	index int
+	// sparse is true if the data of the entry is stored in one of the sparse
+	// formats, i.e. it is not a plain copy of the file content.
+	sparse bool
 }
 
 // New returns a file system (an fs.FS) for a tar archive located at path.
@@ -82,12 +86,24 @@ func (tfs *TarFS) Open(name string) (file fs.File, openErr error) {
 		}
 	}()
 
-	if _, err := tarFile.Seek(entry.pos, io.SeekStart); err != nil {
-		return nil, err
+	if !entry.sparse {
+		// the content is stored as is: read it in place. The header is not
+		// parsed again, its extension records (long names, sizes of 8 GiB and
+		// more) have been applied when the archive was indexed.
+		return &entryFile{
+			Reader: io.NewSectionReader(tarFile, entry.pos, entry.header.Size),
+			Closer: tarFile,
+			header: entry.header,
+		}, nil
 	}
+
+	// sparse entries can only be decoded by the tar reader, together with
+	// their extension headers: walk to the entry again
 	tr := tar.NewReader(tarFile)
-	if _, err := tr.Next(); err != nil {
-		return nil, err
+	for i := 0; i <= entry.index; i++ {
+		if _, err := tr.Next(); err != nil {
+			return nil, err
+		}
 	}
 	return &entryFile{
 		Reader: tr,
@@ -115,7 +131,7 @@ func (tfs *TarFS) getEntry(operation string, path string) (*entry, error) {
 	if !ok {
 		return nil, &fs.PathError{Op: operation, Path: path, Err: fs.ErrNotExist}
 	}
-	if entry.header.Typeflag != tar.TypeReg {
+	if entry.header.Typeflag != tar.TypeReg && entry.header.Typeflag != tar.TypeGNUSparse {
 		// support regular files only
 		return nil, fmt.Errorf("%s: type flag %c is not supported: %w",
 			path, entry.header.Typeflag, errdef.ErrUnsupported)
@@ -132,7 +148,7 @@ func (tfs *TarFS) indexEntries() error {
 	defer tarFile.Close()
 
 	tr := tar.NewReader(tarFile)
-	for {
+	for index := 0; ; index++ {
 		header, err := tr.Next()
 		if err != nil {
 			if errors.Is(err, io.EOF) {
@@ -148,10 +164,26 @@ func (tfs *TarFS) indexEntries() error {
 		name := path.Clean(header.Name)
 		tfs.entries[name] = &entry{
 			header: header,
-			pos:    pos - blockSize,
+			pos:    pos,
+			index:  index,
+			sparse: isSparse(header),
 		}
 	}
 	return nil
+}
+
+// isSparse reports whether the data of the entry is stored in the old GNU or
+// one of the PAX sparse formats.
+func isSparse(header *tar.Header) bool {
+	if header.Typeflag == tar.TypeGNUSparse {
+		return true
+	}
+	for key := range header.PAXRecords {
+		if strings.HasPrefix(key, "GNU.sparse.") {
+			return true
+		}
+	}
+	return false
 }
 
 // entryFile represents an entryFile in a tar archive and implements `fs.File`.
